@@ -8,6 +8,7 @@ specification.  Every result is also checked for faithfulness (cause -> kind, Er
 for JSON, every error location must resolve to a node of the validated document (Api!Resolves)."""
 import collections
 import json
+import os
 import random
 import time
 
@@ -96,8 +97,31 @@ def run():
             continue
         events.append({"ev": "Call", "id": r["id"], "res": abstract(obs)})
         meta.append({"call": by_id.get(r["id"]), "source": "thread %s seq %s" % (r.get("thread"), r.get("seq"))})
-    # one TLC run per batch: the history must stay in one trace
-    verdicts = semcheck.judge(events, wd, [], module="Trace_Api", chunk=10 ** 9, workers=1, timeout=3000)
+    # one TLC run per batch of 1500 calls (the batches of the threaded runs): the history of a call stays in one trace,
+    # and the history sequence stays short (a single trace with 10^5 calls is quadratic in TLC)
+    B = 1500
+    batches = {}
+    for gi, e in enumerate(events):
+        if e["ev"] == "Begin":
+            continue
+        cid = e["id"] if e["ev"] == "Call" else meta[gi]["call"]["id"]
+        b = (cid - 1) // B
+        e2 = dict(e)
+        if e["ev"] == "Call":
+            e2["id"] = (cid - 1) % B + 1
+        batches.setdefault(b, []).append((gi, e2))
+    verdicts = {}
+
+    def judge_batch(b):
+        evs = [{"ev": "Begin", "n": B}] + [e for _, e in batches[b]]
+        bw = os.path.join(wd, "batch_%d" % b)
+        os.makedirs(bw, exist_ok=True)
+        v = semcheck.judge(evs, bw, [], module="Trace_Api", chunk=10 ** 9, workers=1, timeout=3000)
+        return {batches[b][i - 1][0]: x for i, x in v.items() if i >= 1}
+    import concurrent.futures
+    with concurrent.futures.ThreadPoolExecutor(max_workers=8) as ex:
+        for r in ex.map(judge_batch, sorted(batches)):
+            verdicts.update(r)
     stats = collections.Counter(e["res"]["kind"] for e in events if e["ev"] == "Result")
     ok_results = sum(1 for i, e in enumerate(events) if e["ev"] == "Result" and i not in verdicts)
     n_locs = sum(len(e["locs"]) for e in events if e["ev"] == "Result")
